@@ -15,21 +15,22 @@ Lo(iv)   == IF iv.incl_start THEN iv.start ELSE iv.start + 1     \* first base c
 Hi(iv)   == IF iv.incl_end   THEN iv.end   ELSE iv.end - 1       \* last base contained
 Size(iv) == Hi(iv) - Lo(iv) + 1
 
-RECURSIVE SumSize(_, _)
-SumSize(ivs, i) == IF i > Len(ivs) THEN 0 ELSE Size(ivs[i]) + SumSize(ivs, i + 1)
-
 \* Definition: every base of 1..L lies in exactly one interval, and no interval reaches outside 1..L or is empty
 DirectCover(ivs, L) ==
   /\ \A i \in 1..Len(ivs) : Lo(ivs[i]) >= 1 /\ Hi(ivs[i]) <= L /\ Size(ivs[i]) >= 1
   /\ \A b \in 1..L : Cardinality({ i \in 1..Len(ivs) : Lo(ivs[i]) <= b /\ b <= Hi(ivs[i]) }) = 1
 
-\* The same, computable for L ~ 2.5e8 (linear in the number of intervals): non-empty intervals inside 1..L whose
-\* sizes add up to L and which chain from base 1 to base L.  (A chain 1..L uses intervals of total size L, so no
-\* other non-empty interval can exist.)  Equivalence with DirectCover is checked by TLC for small L (Lemma).
+\* The same, computable for L ~ 2.5e8 and thousands of intervals (no recursion, no quantification over bases):
+\* non-empty intervals inside 1..L with pairwise different first bases and pairwise different last bases, one of
+\* which starts at base 1, and each of which either ends at L or is followed by one that starts right after it.
+\* (Follow the successors: they are unique because first bases differ, and no two intervals share a successor
+\* because last bases differ, so all intervals form ONE chain; it starts at 1 and ends at L without gap or overlap.)
+\* Equivalence with DirectCover is checked by TLC for small L (Lemma).
 IsPartition(ivs, L) ==
-  LET Starts == { Lo(ivs[i]) : i \in 1..Len(ivs) } IN
+  LET Starts == { Lo(ivs[i]) : i \in 1..Len(ivs) }
+      Ends   == { Hi(ivs[i]) : i \in 1..Len(ivs) } IN
   /\ \A i \in 1..Len(ivs) : Lo(ivs[i]) >= 1 /\ Hi(ivs[i]) <= L /\ Size(ivs[i]) >= 1
-  /\ SumSize(ivs, 1) = L
+  /\ Cardinality(Starts) = Len(ivs) /\ Cardinality(Ends) = Len(ivs)
   /\ 1 \in Starts
   /\ \A i \in 1..Len(ivs) : Hi(ivs[i]) = L \/ (Hi(ivs[i]) + 1) \in Starts
 
